@@ -22,9 +22,9 @@ import vlib
 THEOREMS = [
     "crc_linear", "crc_detects_single_bit", "crc_detects_burst_le_32_bits", "crc_detects_burst_le_32",
     "crc_detects_byte_overwrite", "verify_detects", "verify_or_unchanged_partial",
-    "detected_every_time_unsound", "detected_first_read_partial", "fixed_read_path_detects_every_time",
+    "detected_every_time", "cache_first_read_path_unsound",
     "cktype_field_unprotected_witness", "index_open_detects", "index_count_unprotected_witness",
-    "compaction_launders_unsound", "laundered_block_verifies", "compaction_fixed_never_launders",
+    "compaction_never_launders", "cache_first_compaction_launders", "laundered_block_verifies",
 ]
 
 SIG_CACHE = "read:cache-before-verify"
@@ -533,7 +533,7 @@ def run(ck):
     return ck.finish(level="proof", checker_cmd="translator/gen_consts.py; lake build RlModel.Thm.C18 drv_c18; #print axioms audit",
                      trusted_base=["Lean 4 kernel (axioms: propext, Classical.choice, Quot.sound)", "translator/gen_consts.py",
                                    "harness/src/bin/c18.rs + /repo hook storage::secondary::verif_hooks", "python zlib.crc32 (CRC oracle)",
-                                   "moka cache modelled as: try_get_with inserts the loaded value before get_block verifies it; no eviction at these sizes",
+                                   "moka cache modelled as: try_get_with publishes what the loader returns Ok (the loader verifies), a failed load is not cached; no eviction at these sizes",
                                    "protobuf decoding of index entries is not modelled (only the entry count)"])
 
 
